@@ -639,8 +639,12 @@ impl RADAU {
                     z3[i] = f1[i] * T20 + f2[i];
                 }
 
-                // Check Newton tolerance
-                if faccon * dyno > newton_tol {
+                // Check Newton tolerance. After the first iteration `faccon` is only a memory of
+                // the previous step; with poor starting values on a nonlinear problem it says
+                // nothing about this one. The first increment is therefore accepted on its own
+                // size only; otherwise the contraction is measured before it is trusted.
+                let contraction = if newt_iter == 1 { faccon.max(1.0) } else { faccon };
+                if contraction * dyno > newton_tol {
                     continue 'newton;
                 } else {
                     break 'newton;
